@@ -96,9 +96,25 @@ class SegmentAllocationTableAdapter(Adapter):
                         previous_sector_was_directory = False
                         continue_flag = False
                         break
-                    elif value_current == AKAI_SAT_FREE_FLAG or \
-                            (value_current < size and dirty_flags[value_current]):
+                    elif value_current == AKAI_SAT_FREE_FLAG:
 
+                        continue_flag = False
+                        dirty_flags[subpath_index] = True
+                        previous_sector_was_directory = False
+                        break 
+                    elif value_current < size and dirty_flags[value_current]:
+                        # The chain leads into a sector that was visited 
+                        # before (e.g. its head is not its lowest sector): 
+                        # keep the links found so far and join them to the 
+                        # remainder that is already known. A link back into 
+                        # the chain itself (a loop) ends the chain instead.
+                        links.append(subpath_index)
+                        add_to_sector_links(links, sector_links)
+                        if value_current not in links:
+                            sector_links[subpath_index] = SectorLink(
+                                next=value_current, 
+                                end=False
+                            )
                         continue_flag = False
                         dirty_flags[subpath_index] = True
                         previous_sector_was_directory = False
